@@ -1,7 +1,8 @@
 """C04 - Outbound messages: field contents cannot inject structure; framing is truthful.
 
 (a) Injection.  Every code point of the tier's set is placed at the start, in the middle and at the end of
-    an otherwise benign value in ~45 positions of the real serialisation paths (server Response /
+    an otherwise benign value in 82 position variants (29 server, 16 multipart x {declared length, chunked}, 18 client,
+    3 WebSocket handshake) of the real serialisation paths (server Response /
     StreamResponse on a mocked request whose writer is a real StreamWriter on a recording transport; client
     requests through a real ClientSession whose connector joins it to a scripted peer; multipart part headers;
     the WebSocket handshake request).  Oracle: a *differential line oracle* - the bytes handed to the
@@ -45,7 +46,9 @@ TECHNIQUE = (
 LEVEL_TEXT = (
     "Exploration: every code point of the tier's set (quick: all < U+0300, all C0/C1/DEL, separators, surrogate sample, "
     "BOM and a 20 000-point seeded sample; thorough: all 1 114 112 code points) at start/middle/end of a benign value in "
-    "each of ~45 positions of the real server, client, multipart and WebSocket-handshake serialisation paths, plus "
+    "each of 82 position variants of the real server, client, multipart and WebSocket-handshake serialisation paths (in "
+    "thorough, code points above U+30FF that are not in the individually placed set are placed in the middle only, for the "
+    "client/multipart/WebSocket families eight per value with individual fallback when the value is refused), plus "
     "hostile random strings; all StreamWriter call sequences up to a length over a small alphabet under every "
     "chunked/compress/length configuration plus random longer programs; every payload class with generated values. "
     "Says: held (or the listed mechanisms observed) on these executions; nothing about positions not listed, the C "
@@ -889,7 +892,7 @@ def run_injection_shard(spec, rec):
         if tier == "quick":
             rec.set_exhaustive("code points U+0000..U+02FF (all C0, DEL, C1) x {start,middle,end} in every position", True)
         else:
-            rec.set_exhaustive("every code point U+0000..U+10FFFF in every position (<= U+30FF, surrogates, specials individually at start/middle/end; the rest at least once in the middle)", True)
+            rec.set_exhaustive("every code point U+0000..U+10FFFF in every position (<= U+30FF, surrogates, specials individually at start/middle/end; the rest at least once in the middle; the [chunked] multipart variants, which serialise like their [len] twins, get the individually placed set only)", True)
     finally:
         if cli is not None:
             cli.close()
